@@ -50,7 +50,7 @@ MATH_CONTRACTS_BITS(fb_);
 #undef aws_ctz_size
 
 /* DFCC starts every global as nondet; reset the shared switches, then give the error ghosts arbitrary (recorded) values */
-#define ERR_GHOSTS() do { GHOST_RESET_COMMON(); g_last_error = nondet_int(); g_raise_count = nondet_int(); __CPROVER_assume(g_raise_count >= 0 && g_raise_count < 1000); } while (0)
+#define ERR_GHOSTS() do { MATH_GHOST_RESET(); g_last_error = nondet_int(); g_raise_count = nondet_int(); __CPROVER_assume(g_raise_count >= 0 && g_raise_count < 1000); } while (0)
 
 /* ---- checked / saturating: one harness per function; canaries on both outcomes ---- */
 #define H_CHECKED(F, T)                                                                                                \
@@ -63,7 +63,7 @@ MATH_CONTRACTS_BITS(fb_);
 #define H_SATURATING(F, T, SAT)                                                                                        \
     void h_##F(void) {                                                                                                 \
         T a, b;                                                                                                        \
-        GHOST_RESET_COMMON();                                                                                          \
+        MATH_GHOST_RESET();                                                                                          \
         T x = F(a, b);                                                                                                 \
         if (x == (SAT)) CANARY(#F " saturated or extreme"); else CANARY(#F " exact");                                  \
     }
@@ -94,11 +94,45 @@ H_SATURATING(fb_aws_mul_u32_saturating, uint32_t, UINT32_MAX)
 H_CHECKED(fb_aws_mul_u64_checked, uint64_t)
 H_SATURATING(fb_aws_mul_u64_saturating, uint64_t, UINT64_MAX)
 
+/* ---- portable multiply, bounded stand-in: ONE operand from the property's boundary set
+ *      {0, 1, 2^k-1, 2^k, 2^k+1, MAX-1, MAX} (k symbolic), the other operand fully symbolic ---- */
+#define BSET_ASSUME(T, BITS, v)                                                                                        \
+    do {                                                                                                               \
+        unsigned k = nondet_u32(), d = nondet_u32();                                                                   \
+        __CPROVER_assume(k < (BITS) && d < 3);                                                                         \
+        T base = (T)(((T)1) << k);                                                                                     \
+        __CPROVER_assume((v) == (T)(base + d - 1) || (v) == 0 || (v) >= (T)((T)~(T)0 - 1));                          \
+    } while (0)
+#define H_FBMUL_CHECKED(F, T, BITS, WHICH)                                                                             \
+    void h_fbmul_##F##_##WHICH(void) {                                                                                 \
+        T a, b, *r;                                                                                                    \
+        ERR_GHOSTS();                                                                                                  \
+        BSET_ASSUME(T, BITS, WHICH);                                                                                   \
+        int rc = F(a, b, r);                                                                                           \
+        if (rc == AWS_OP_SUCCESS) CANARY(#F " exact"); else CANARY(#F " overflow");                                    \
+    }
+#define H_FBMUL_SATURATING(F, T, BITS, WHICH, SAT)                                                                     \
+    void h_fbmul_##F##_##WHICH(void) {                                                                                 \
+        T a, b;                                                                                                        \
+        MATH_GHOST_RESET();                                                                                            \
+        BSET_ASSUME(T, BITS, WHICH);                                                                                   \
+        T x = F(a, b);                                                                                                 \
+        if (x == (SAT)) CANARY(#F " saturated"); else CANARY(#F " exact");                                             \
+    }
+H_FBMUL_CHECKED(fb_aws_mul_u64_checked, uint64_t, 64, a)
+H_FBMUL_CHECKED(fb_aws_mul_u64_checked, uint64_t, 64, b)
+H_FBMUL_CHECKED(fb_aws_mul_u32_checked, uint32_t, 32, a)
+H_FBMUL_CHECKED(fb_aws_mul_u32_checked, uint32_t, 32, b)
+H_FBMUL_SATURATING(fb_aws_mul_u64_saturating, uint64_t, 64, a, UINT64_MAX)
+H_FBMUL_SATURATING(fb_aws_mul_u64_saturating, uint64_t, 64, b, UINT64_MAX)
+H_FBMUL_SATURATING(fb_aws_mul_u32_saturating, uint32_t, 32, a, UINT32_MAX)
+H_FBMUL_SATURATING(fb_aws_mul_u32_saturating, uint32_t, 32, b, UINT32_MAX)
+
 /* ---- bit counts ---- */
 #define H_BITS(F, T, BITS)                                                                                             \
     void h_##F(void) {                                                                                                 \
         T n;                                                                                                           \
-        GHOST_RESET_COMMON();                                                                                          \
+        MATH_GHOST_RESET();                                                                                          \
         size_t c = F(n);                                                                                               \
         if (c == (BITS)) CANARY(#F " zero"); else if (c == 0) CANARY(#F " top/bottom bit set"); else CANARY(#F " inner bit");  \
     }
@@ -126,7 +160,7 @@ H_BITS(fb_aws_ctz_size, size_t, 64)
 /* ---- powers of two ---- */
 void h_is_power_of_two(void) {
     size_t x;
-    GHOST_RESET_COMMON();
+    MATH_GHOST_RESET();
     g_pow_k = nondet_u32();
     bool p = aws_is_power_of_two(x);
     if (p) CANARY("power of two"); else if (x == 0) CANARY("zero"); else CANARY("not a power of two");
@@ -144,8 +178,8 @@ void h_round_up_to_power_of_two(void) {
 
 /* ---- min / max ---- */
 #define H_MINMAX(SUF, T)                                                                                               \
-    void h_min_##SUF(void) { T a, b; GHOST_RESET_COMMON(); T x = aws_min_##SUF(a, b); if (x == a) CANARY("min is a"); else CANARY("min is b"); } \
-    void h_max_##SUF(void) { T a, b; GHOST_RESET_COMMON(); T x = aws_max_##SUF(a, b); if (x == a) CANARY("max is a"); else CANARY("max is b"); }
+    void h_min_##SUF(void) { T a, b; MATH_GHOST_RESET(); T x = aws_min_##SUF(a, b); if (x == a) CANARY("min is a"); else CANARY("min is b"); } \
+    void h_max_##SUF(void) { T a, b; MATH_GHOST_RESET(); T x = aws_max_##SUF(a, b); if (x == a) CANARY("max is a"); else CANARY("max is b"); }
 H_MINMAX(u8, uint8_t)
 H_MINMAX(i8, int8_t)
 H_MINMAX(u16, uint16_t)
